@@ -63,11 +63,11 @@ def concrete(sym, r, name=None):
         return dict(op="write_env", name=name, entries=r.sample(ENV_POOL, k))
     if sym == "ws":
         fmts = r.sample(SBOM_FORMATS, r.randint(0, 3))
-        return dict(op="write_sboms", name=name, sboms=[[f, hx(b'{"sbom":"%s-%d"}' % (f.encode(), r.randrange(1000)))] for f in fmts])
+        return dict(op="write_sboms", name=name, sboms=[[f, hx(b'{"sbom":"%s-%d"}' % (f.encode(), r.randrange(1000))) if r.random() < 0.85 else ""] for f in fmts])      # (an SBOM document of zero bytes is a file of zero bytes)
     if sym == "wx":
         progs = r.sample(["p1", "p2", "p3"], r.randint(0, 3))
         # the program's name is one thing, the file it is copied from another ("p1b": same size and mode as p1, other content)
-        return dict(op="write_exec_d", name=name, programs=[[p, r.choice([p, p, "p1b" if p == "p1" else p])] for p in progs])
+        return dict(op="write_exec_d", name=name, programs=[[p, r.choice([p, p, "p1b" if p == "p1" else "p2l" if p == "p2" else p])] for p in progs])
     if sym == "wf":
         files = [[r.choice(["data.txt", "bin/tool", "lib/libx.so", "deep/er/file", "env.build.txt"]), hx(b"content-%d" % r.randrange(1000))] for _ in range(r.randint(1, 3))]
         # symbolic links inside the layer (to a file, to a directory, dangling, relative upwards): legal layer content
@@ -340,6 +340,10 @@ def judge_write(step, rep, pre, post, names, src_dir, sh, case):
         if got != want or ((b"exec.d" in v1["dir"]) != bool(want)):
             sh.violation("write:execd", "%s: exec.d on disk %r, expected %r (name: mode; content compared too)" % (what, sorted((k, oct(v[0])) for k, v in got.items()), sorted((k, oct(v[0])) for k, v in want.items())), case)
             return False
+        shared = vp.shared_inodes(os.path.join(os.path.dirname(src_dir), "layers", nm, "exec.d"))
+        if shared:
+            sh.violation("write:execd:shares-inode", "%s: the installed programs %r are hard links (a later change of the source file would change the layer)" % (what, shared), case)
+            return False
         rest0 = {k: e for k, e in v0["dir"].items() if not k.startswith(b"exec.d")}
         rest1 = {k: e for k, e in v1["dir"].items() if not k.startswith(b"exec.d")}
         if rest0 != rest1:
@@ -402,6 +406,7 @@ def run_history(mon, base, hid, steps, names, sh, snapshots_out=None):
     with open(os.path.join(src, "p1b"), "wb") as f:
         f.write(b"#!/bin/sh\necho pB\n")
     os.chmod(os.path.join(src, "p1b"), 0o755)
+    os.symlink("p2", os.path.join(src, "p2l"))      # a source that is a symbolic link: what is installed is the program, not the link
     case = {"steps": jsonable(steps), "names": names, "_layers": layers, "umask": getattr(mon, "umask", 0o022)}
     try:
         mon.call({"op": "init", "layers_dir": layers, "app_dir": os.path.join(root, "app"), "bp_dir": os.path.join(root, "bp")})
@@ -412,6 +417,12 @@ def run_history(mon, base, hid, steps, names, sh, snapshots_out=None):
             op = step["op"]
             if op == "restore":
                 layersim.restore(layers, names)
+                if step.get("strip"):
+                    # one restored layer directory comes back without its <layer>.toml: a restored layer without metadata and without flags
+                    sp = os.path.join(layers, step["strip"] + ".toml")
+                    if os.path.isdir(os.path.join(layers, step["strip"])) and os.path.lexists(sp):
+                        os.unlink(sp)
+                        sh.count("restores_without_toml")
                 mon.call({"op": "drop_refs"})
                 alive.clear()
                 pre = vp.snapshot(layers)
@@ -493,7 +504,7 @@ def _random_history(r, length):
     for _ in range(length):
         k = r.random()
         if k < 0.12:
-            steps.append(concrete("R", r))
+            steps.append(dict(concrete("R", r), strip=r.choice(mine)) if r.random() < 0.3 else concrete("R", r))
             alive.clear()
             continue
         name = r.choice(mine)
